@@ -23,30 +23,37 @@
 (***************************************************************************)
 EXTENDS Naturals, Sequences, FiniteSets, TLC, Json
 
-CONSTANT Mutant      \* "none" | "vd_not_selected" | "element_not_selected"
+CONSTANT Mutant      \* "none" | "vd_not_selected" | "element_not_selected" | "select_mixes_lookup_openings"
 
-K == 3                                   \* proof elements: 1 a commitment cap, 2 the final polynomial, 3 a queried leaf
+\* proof elements: 1 a commitment cap, 2 the final polynomial, 3 a queried leaf, 4 the lookup openings at zeta,
+\* 5 the lookup openings at g zeta (4 and 5 are empty vectors unless the inner circuits have a lookup table: `lk`)
+K == 5
 Circuits == {"A", "B", "D"}
 \* a pair as the adversary presents it: a proof made for `owner`, element `bad` altered (0 = none), shown with data `vd`
-Pairs == [owner : Circuits, bad : 0..K, vd : Circuits \cup {"corrupt"}]
+Pairs == [owner : Circuits, bad : 0..3, vd : Circuits \cup {"corrupt"}, lk : BOOLEAN]
 
-Elem(p, i) == [owner |-> p.owner, intact |-> p.bad # i]
+\* slot: which component of its proof the element is (empty lookup vectors are indistinguishable: slot 4)
+Elem(p, i) == [owner |-> p.owner, intact |-> p.bad # i, slot |-> IF i = 5 /\ ~p.lk THEN 4 ELSE i]
 ValidPair(p) == p.bad = 0 /\ p.vd = p.owner
 
 VARIABLES p0, p1, cond
 vars == <<p0, p1, cond>>
 
 \* conditionally_verify_proof: `if condition { proof0 } else { proof1 }`
-SelElem(i) == IF Mutant = "element_not_selected" /\ i = K THEN Elem(p0, i)
-              ELSE IF cond THEN Elem(p0, i) ELSE Elem(p1, i)
+\* mutant select_mixes_lookup_openings: the g zeta slot is filled from the two zeta vectors (copy of the line above)
+Src(i) == IF Mutant = "select_mixes_lookup_openings" /\ i = 5 THEN 4 ELSE i
+SelElem(i) == IF Mutant = "element_not_selected" /\ i = 3 THEN Elem(p0, i)
+              ELSE IF cond THEN Elem(p0, Src(i)) ELSE Elem(p1, Src(i))
 SelVd == IF Mutant = "vd_not_selected" THEN p0.vd ELSE IF cond THEN p0.vd ELSE p1.vd
 \* the single verification of the selected elements under the selected data
-CircuitAccepts == \A i \in 1..K : SelElem(i).intact /\ SelElem(i).owner = SelVd
+Want(i) == IF i = 5 /\ ~(IF cond THEN p0.lk ELSE p1.lk) THEN 4 ELSE i
+CircuitAccepts == \A i \in 1..K : SelElem(i).intact /\ SelElem(i).owner = SelVd /\ SelElem(i).slot = Want(i)
 
 Chosen == IF cond THEN p0 ELSE p1
 Other == IF cond THEN p1 ELSE p0
 
-Init == p0 \in Pairs /\ p1 \in Pairs /\ cond \in BOOLEAN
+\* both inner proofs are for the same common data: both with or both without a lookup table
+Init == p0 \in Pairs /\ p1 \in Pairs /\ p0.lk = p1.lk /\ cond \in BOOLEAN
 Next == UNCHANGED vars
 
 \* ---- obligations --------------------------------------------------------------------
@@ -59,7 +66,7 @@ Kind(p) == IF ValidPair(p) THEN "valid"
            ELSE IF p.vd = "corrupt" THEN "corrupt_vd"
            ELSE IF p.vd # p.owner THEN "foreign_vd"
            ELSE "tampered"
-Line == [p0 |-> p0, p1 |-> p1, cond |-> cond, kind0 |-> Kind(p0), kind1 |-> Kind(p1),
+Line == [p0 |-> p0, p1 |-> p1, cond |-> cond, lk |-> p0.lk, kind0 |-> Kind(p0), kind1 |-> Kind(p1),
          expect |-> IF ValidPair(Chosen) THEN "accept" ELSE "reject"]
 Emit == PrintT("REPLAY " \o ToJson(Line))
 =============================================================================
